@@ -12,7 +12,7 @@
 EXTENDS WireRR, GenBase
 
 CONSTANTS Mode,        \* "layout" | "types" | "cross" | "rrhdr" | "opts" | "svcb" | "gateway" | "nodata" | "unknown"
-                       \* | "hdr" | "rcode" | "sections" | "big" | "compress" | "orders"
+                       \* | "hdr" | "rcode" | "sections" | "big" | "compress" | "orders" | "empty"
           Tier,        \* 0 quick (boundary subsets), 1 thorough (all flag words, all RCODEs)
           Shard, NShards
 
@@ -246,7 +246,14 @@ UpdateHdr == [H0 EXCEPT !.opcode = 5, !.rd = FALSE]
 Zone == [name |-> << <<120>> >>, qtype |-> 6, qclass |-> 1]
 NodataMsg(t, c) == Msg(UpdateHdr, <<Zone>>, << ND(Owner, t, c) >>, << ND(NameA \o << <<120>> >>, t, c) >>, <<>>)
 
-UnknownMsg(t, j) == Msg(H0, <<>>, << RR(Owner, t, 1, Ttl1h, [Rdata |-> BlobBnd(300)[j]]) >>, <<>>, <<>>)
+UnknownMsg(t, j) ==
+  IF j < 100 THEN Msg(H0, <<>>, << RR(Owner, t, 1, Ttl1h, [Rdata |-> BlobBnd(300)[j]]) >>, <<>>, <<>>)
+  ELSE \* j = 100 + n: n records of the same opaque type with DIFFERENT RDATA in one message (answer and additional sections);
+       \* the last one has empty RDATA: each record must keep its own data
+       LET datas == << <<1, 2>>, <<255>>, <<7, 7, 7, 7>>, <<>> >>
+           n == j - 100
+       IN Msg(H0, <<Q1>>, [i \in 1..(n - 1) |-> RR(<< <<96 + i>> >> \o Owner, t, 1, Ttl1h, [Rdata |-> datas[i]])], <<>>,
+              << RR(Owner, t, 1, Ttl1h, [Rdata |-> datas[IF n = 4 THEN 4 ELSE n]]), RR(NameA, t, 1, Ttl1h, [Rdata |-> <<>>]) >>)
 
 HdrWordsQuick == { 0, 65535, 33152, 256, 43690, 21845 } \cup { Pow2(i) : i \in 0..15 } \cup { 65535 - Pow2(i) : i \in 0..15 }
 HdrMsg(w, shape) == Msg(HdrOfWord(w), IF shape = 0 THEN <<>> ELSE <<Q1>>, <<>>, <<>>, <<>>)
@@ -336,6 +343,13 @@ PadMsg(pad) ==
          RR(Mail, 15, 1, Ttl1h, [Preference |-> 20, Mx |-> << <<109, 120>> >> \o Mail]),
          RR(<< <<109, 120>> >> \o Mail, 1, 1, Ttl1h, [A |-> <<192, 0, 2, 1>>]) >>, <<>>, <<>>)
 
+(* The empty-list boundary: for every type and every field that holds a LIST (strings, names, *)
+(* types, options, SvcParams, APL items, optional string) the record with that list empty and *)
+(* every other field at its baseline.  A record whose only field is such a list has empty     *)
+(* RDATA: the same octets as the RDATA-less form.  v = <<type, field index>>.                 *)
+ListKinds == {"strs", "names", "bitmap", "bitmap0", "opts", "svcb", "apl", "ostr"}
+EmptyMsg(t, i) == LET es == FieldsOf(t) IN One1(t, With(es, i, <<>>))
+
 (* Sets that travel in canonical order (type bitmaps, SvcParams, mandatory keys): the *)
 (* same set is handed to the packer in several orders -- increasing, decreasing, and   *)
 (* increasing with one adjacent pair exchanged (every position, first and last pair    *)
@@ -389,7 +403,8 @@ Init ==
                       \/ v = <<-1, 0, 0>> \/ v = <<-2, 0, 0>>          \* all keys in key order / in reverse order
   \/ Mode = "gateway" /\ \E t \in {45, 260}, g \in 0..3, d \in 0..1 : \E x \in 1..(IF g = 3 THEN Len(GwNames) ELSE 1) : v = <<t, g, d, x>>
   \/ Mode = "nodata" /\ \E t \in (DOMAIN Layout \ {41}) \cup Range(UnknownCodes), c \in {254, 255} : InShard(t) /\ v = <<t, c>>
-  \/ Mode = "unknown" /\ \E x \in 1..Len(UnknownCodes), j \in 1..Len(BlobBnd(300)) : v = <<UnknownCodes[x], j>>
+  \/ Mode = "unknown" /\ \/ \E x \in 1..Len(UnknownCodes), j \in 1..Len(BlobBnd(300)) : v = <<UnknownCodes[x], j>>
+                         \/ \E t \in {11, 65280, 65281}, n \in 2..4 : v = <<t, 100 + n>>
   \/ Mode = "hdr" /\ \E w \in (IF Tier = 0 THEN HdrWordsQuick ELSE 0..65535), s \in 0..1 : InShard(w) /\ v = <<w, s>>
   \/ Mode = "rcode" /\ \E rc \in (IF Tier = 0 THEN RcodesQuick ELSE 0..4096), s \in 0..2 : InShard(rc) /\ v = <<rc, s>>
   \/ Mode = "sections" /\ \E a \in 0..3, b \in 0..3, c \in 0..3, d \in 0..3 : InShard(a + b + c + d) /\ v = <<a, b, c, d>>
@@ -397,6 +412,8 @@ Init ==
   \/ Mode = "compress" /\ \/ \E x \in 1..Len(CompressCases) : InShard(x) /\ v = <<1, x>>
                           \/ \E pad \in (IF Tier = 0 THEN {16320, 16334, 16337, 16338, 16339, 16345, 16350, 16355, 16370}
                                                         ELSE 16300..16400) : InShard(pad) /\ v = <<2, pad>>
+  \/ Mode = "empty" /\ \E x \in 1..Len(TypeCodes) : \E i \in 1..Len(FieldsOf(TypeCodes[x])) :
+                         FieldsOf(TypeCodes[x])[i].k \in ListKinds /\ v = <<TypeCodes[x], i>>
   \/ Mode = "orders" /\ \E kind \in 1..5 : \E x \in 1..Len(OrderSets(kind)) : \E o \in OrdersOf(OrderSets(kind)[x]) :
                           InShard(x) /\ v = <<kind, x, o>>
 Next == UNCHANGED v
@@ -418,6 +435,7 @@ Case ==
     [] Mode = "big"      -> BigMsg(v[1])
     [] Mode = "compress" -> IF v[1] = 1 THEN CompressCases[v[2]] ELSE PadMsg(v[2])
     [] Mode = "orders"   -> OrdersMsg(v[1], v[2], v[3])
+    [] Mode = "empty"    -> EmptyMsg(v[1], v[2])
 
 \* the only deliberately ill-formed cases: RCODE 4096, RDATA of 65536 octets
 MayBeIllFormed == (Mode = "rcode" /\ v[1] > 4095) \/ (Mode = "big" /\ v[1] = 4)
